@@ -217,6 +217,7 @@ class Readline(MemberContract):
 
 
 class Readlines(MemberContract):
+    locals_order = ['self', 'sizehint', 'buf', 'lines']
     target = MOD + ":ArMember.readlines"
     requires = (INV,)
     ensures = (
